@@ -185,7 +185,16 @@ func HarnessCallback() {
 		}
 	}
 
-	if vrtProp("C02") && ar != nil {
+	// resolved: the storage handed the stored request to the handler
+	resolved := ar != nil && st.okCall("AuthRequestByID")
+	if vrtProp("C02") && !resolved {
+		// nothing is known about the caller: the reply stays in the HTTP body
+		vrtAssert("C02.unknown-request-is-answered-in-the-body", rp.Kind == "error" || rp.Kind == "xml")
+		if d.decoded {
+			vrtAssert("C02.unknown-request-has-no-destination", d.resp.Destination == "")
+		}
+	}
+	if vrtProp("C02") && resolved {
 		switch rp.Kind {
 		case "form":
 			vrtAssert("C02.form-goes-to-stored-acs", vrtSameURL(rp.Action, ar.acsURL))
@@ -201,7 +210,8 @@ func HarnessCallback() {
 			vrtAssert("C02.redirect-only-for-redirect-binding", ar.binding == RedirectBinding)
 		case "xml":
 			// XML in the HTTP body is the documented reply when no consumer URL is known
-			vrtAssert("C02.body-only-without-acs", ar.acsURL == "")
+			// or when the stored binding is one the IdP cannot use towards the consumer
+			vrtAssert("C02.body-only-without-acs", ar.acsURL == "" || !known)
 		}
 		if d.decoded {
 			vrtAssert("C02.destination-is-stored-acs", d.resp.Destination == ar.acsURL)
